@@ -15,6 +15,7 @@ from ..model import iter_own_nodes
 from ..template import TStr, TObj, TAlt, TRaise, TNone, TList, TBlock, TEnum, Sym, Hole, RepL, AltL
 from ..links import Scenario, lex, toks_text, tok_text, statements_of, match_close
 from .wiring import build_wiring, PROC
+from .shared import expand_aliases
 
 MOD = 'dznpy.adv_shell.core.processing'
 
@@ -163,32 +164,49 @@ def check(ctx):
         body = chk.fields.get('contents') if isinstance(chk, TObj) else None
         text = w.ev.to_str(body, 2) if body is not None and body is not TNone and not isinstance(body, TStr) else body
         stmts = statements_of(sc.simplify(text)) if isinstance(text, TStr) else []
-        seen = {}
         returns_param = False
         cparam = None
         cps = chk.fields.get('params') if isinstance(chk, TObj) else None
         if isinstance(cps, TList) and cps.items and isinstance(cps.items[0], TObj):
             cparam = cps.items[0].fields['name'].const()
+        # every `if (<cond>) throw ...;` statement, its condition parsed as a boolean formula over
+        # "<param>.try_get<dzn::X>() ==/!= nullptr" atoms; the function throws iff one of the guards fires
+        guards = []
+        unparsed = []
+        early_return = False
         for st in stmts:
             t = [tok_text(x) for x in st]
-            if t[:2] == ['if', '('] and 'try_get' in t and 'throw' in t:
+            if t[:2] == ['if', '('] and 'throw' in t:
                 close = match_close(st, 1)
-                cond = t[2:close]
-                # <param> . try_get < dzn :: X > ( ) OP nullptr
-                if cond[:4] == [cparam, '.', 'try_get', '<'] and cond[-1] == 'nullptr':
-                    typ = ''.join(cond[4:cond.index('>')])
-                    seen[typ] = cond[-2]
+                f = _parse_presence(t[2:close], cparam)
+                if f is None:
+                    unparsed.append(' '.join(t[2:close])[:80])
+                else:
+                    guards.append(f)
             if t == ['return', cparam]:
                 returns_param = True
-        want_op = '!=' if origin == 'CREATE' else '=='
+            elif t[:1] == ['return'] and not guards:
+                early_return = True
+        seen = {}
         problems = []
-        for typ in ('dzn::pump', 'dzn::runtime'):
-            if typ not in seen:
-                problems.append(f'{typ} is not checked')
-            elif seen[typ] != want_op:
-                problems.append(f'{typ} is tested with `{seen[typ]} nullptr`; for {origin} it must be `{want_op} nullptr`')
+        if unparsed:
+            problems.append(f'guard condition(s) not understood: {unparsed}')
+        want = (lambda pump, rt: pump or rt) if origin == 'CREATE' else (lambda pump, rt: (not pump) or (not rt))
+        wrong = []
+        for pump in (False, True):
+            for rt in (False, True):
+                throws = any(g({'dzn::pump': pump, 'dzn::runtime': rt}) for g in guards)
+                seen[f"pump={'y' if pump else 'n'},runtime={'y' if rt else 'n'}"] = 'throw' if throws else 'pass'
+                if throws != want(pump, rt) and not unparsed:
+                    wrong.append(f"prototype {'with' if pump else 'without'} dispatcher, {'with' if rt else 'without'} runtime: "
+                                 f"{'refused' if throws else 'accepted'}")
+        if wrong:
+            problems.append(('CREATE must refuse a prototype that already carries a dispatcher or a runtime' if origin == 'CREATE' else
+                             'IMPORT must refuse a prototype that lacks the dispatcher or the runtime') + ' - ' + '; '.join(wrong))
+        if early_return:
+            problems.append('the check returns before the guards')
         if not returns_param:
-            problems.append('FacilitiesCheck does not return its locator parameter')
+            problems.append('the checked locator is not returned')
         if not isinstance(chk, TObj) or not isinstance(chk.fields.get('prefix'), TEnum) or chk.fields['prefix'].member != 'STATIC':
             problems.append('FacilitiesCheck is not static (it runs before the members are constructed)')
         run.add('C09.check', MOD, 'create_facilities_check_fn', f'{origin}: {seen}', not problems,
@@ -200,9 +218,11 @@ def check(ctx):
     mvp = fcls.methods.get('member_variables')
     order = []
     if mvp is not None:
+        # the literal sequence of the facility members, whether it feeds a comprehension or an explicit loop
         for n in iter_own_nodes(mvp.node):
-            if isinstance(n, ast.ListComp) and isinstance(n.generators[0].iter, ast.List):
-                order = [ast.unparse(e).replace('self.', '') for e in n.generators[0].iter.elts]
+            if isinstance(n, (ast.List, ast.Tuple)) and n.elts and all(
+                    isinstance(e, ast.Attribute) and isinstance(e.value, ast.Name) and e.value.id == 'self' for e in n.elts):
+                order = [e.attr for e in n.elts]
     ok = order and set(order) == {'runtime', 'dispatcher', 'locator'} and order.index('locator') > order.index('runtime') \
         and order.index('locator') > order.index('dispatcher')
     run.add('C09.order', fcls.module.name, 'Facilities.member_variables', f'declaration order {order}', bool(ok),
@@ -212,13 +232,25 @@ def check(ctx):
     hdr = prog.cls('adv_shell', 'Builder').methods.get('_create_headerfile')
     seq = []
     if hdr is not None:
+        # the list handed to the PRIVATE access-specified section (whatever the local is called)
+        private_name = None
         for n in iter_own_nodes(hdr.node):
-            if isinstance(n, ast.Assign) and getattr(n.targets[0], 'id', '') == 'private_section' and isinstance(n.value, ast.List):
-                seq = [ast.unparse(e) for e in n.value.elts]
+            if isinstance(n, ast.Call) and getattr(n.func, 'attr', getattr(n.func, 'id', '')) == 'AccessSpecifiedSection':
+                kw = {k.arg: k.value for k in n.keywords}
+                spec = kw.get('access_specifier', n.args[0] if n.args else None)
+                cont = kw.get('contents', n.args[1] if len(n.args) > 1 else None)
+                if spec is not None and ast.unparse(spec).endswith('PRIVATE') and cont is not None:
+                    names = [x.id for x in ast.walk(cont) if isinstance(x, ast.Name) and isinstance(x.ctx, ast.Load)]
+                    lists = [nm for nm in names if any(isinstance(a, ast.Assign) and getattr(a.targets[0], 'id', '') == nm and
+                                                       isinstance(a.value, ast.List) for a in iter_own_nodes(hdr.node))]
+                    private_name = lists[0] if lists else None
+        for n in iter_own_nodes(hdr.node):
+            if isinstance(n, ast.Assign) and private_name and getattr(n.targets[0], 'id', '') == private_name and isinstance(n.value, ast.List):
+                seq = [ast.unparse(expand_aliases(hdr, e)) for e in n.value.elts]
 
     def pos(key):
         return next((i for i, s in enumerate(seq) if key in s), -1)
-    pf, pe, pp, pr = pos('facilities.member_variables'), pos('cpp.encapsulee'), pos('provides_ports.rerouting_class_members'), pos('requires_ports.rerouting_class_members')
+    pf, pe, pp, pr = pos('facilities.member_variables'), pos('cpp_elements.encapsulee'), pos('provides_ports.rerouting_class_members'), pos('requires_ports.rerouting_class_members')
     ok = 0 <= pf < pe < pp and pe < pr
     run.add('C09.order', 'dznpy.adv_shell', 'Builder._create_headerfile', 'private section order', ok,
             'facilities are declared before the encapsulee, the encapsulee before the boundary ports' if ok else
@@ -236,3 +268,75 @@ def check(ctx):
                 'the accessor list does not skip an absent Locator() accessor')
     run.floor('C09.members', 2)
     run.floor('C09.check', 2)
+
+
+def _parse_presence(toks: List[str], param: Optional[str]):
+    """Boolean formula over `<param>.try_get<dzn::X>() == / != nullptr` atoms with && || ! ( ): a function from
+    {'dzn::pump': bool, 'dzn::runtime': bool} (facility present in the prototype) to bool; None when not of that shape."""
+    pos = 0
+
+    def peek():
+        return toks[pos] if pos < len(toks) else None
+
+    def atom():
+        nonlocal pos
+        if peek() == '!':
+            pos += 1
+            f = atom()
+            return None if f is None else (lambda env, f=f: not f(env))
+        if peek() == '(':
+            pos += 1
+            f = disj()
+            if f is None or peek() != ')':
+                return None
+            pos += 1
+            return f
+        # <param> . try_get < dzn :: X > ( ) OP nullptr      |   nullptr OP <param> . try_get ...
+        flip = False
+        if peek() == 'nullptr' and pos + 1 < len(toks) and toks[pos + 1] in ('==', '!='):
+            op = toks[pos + 1]
+            pos += 2
+            flip = True
+        if toks[pos:pos + 4] != [param, '.', 'try_get', '<']:
+            return None
+        try:
+            gt = toks.index('>', pos)
+        except ValueError:
+            return None
+        typ = ''.join(toks[pos + 4:gt])
+        if toks[gt + 1:gt + 3] != ['(', ')'] or typ not in ('dzn::pump', 'dzn::runtime'):
+            return None
+        pos = gt + 3
+        if not flip:
+            if peek() not in ('==', '!=') or pos + 1 >= len(toks) or toks[pos + 1] != 'nullptr':
+                # bare pointer used as a condition: true when present
+                return lambda env, typ=typ: env[typ]
+            op = peek()
+            pos += 2
+        present = op == '!='
+        return lambda env, typ=typ, present=present: env[typ] == present
+
+    def conj():
+        nonlocal pos
+        f = atom()
+        while f is not None and peek() == '&&':
+            pos += 1
+            g = atom()
+            if g is None:
+                return None
+            f = (lambda env, f=f, g=g: f(env) and g(env))
+        return f
+
+    def disj():
+        nonlocal pos
+        f = conj()
+        while f is not None and peek() == '||':
+            pos += 1
+            g = conj()
+            if g is None:
+                return None
+            f = (lambda env, f=f, g=g: f(env) or g(env))
+        return f
+
+    f = disj()
+    return f if f is not None and pos == len(toks) else None
